@@ -574,7 +574,7 @@ class ImplementLoops(ExecContract):
 
     loops = property(lambda self: {
         0: dict(shape="for i in range(self.eval_mapper(start), self.eval_mapper(stop))", inv=self.inv_range,
-                havoc_ghosts=["touched_r", "touched_w", "scope_r"]),
+                havoc_ghosts=["touched_r", "touched_w", "scope_r", "bound"]),
         1: dict(shape="for _val in implement_loops(loops[1:])", inv=self.inv_inner,
                 havoc_ghosts=["touched_r", "touched_w", "scope_r"]),
     })
